@@ -166,7 +166,7 @@ func (ex *Exec) tokModelFor(vocab []string) *TokModel {
 }
 
 // newTokSrc builds the symbolic source for k slots.
-func (ex *Exec) newTokSrc(k int, vocab []string) Value {
+func (ex *Exec) newTokSrc(k int, vocab []string, fixed []int) Value {
 	m := ex.tokModelFor(vocab)
 	if !m.usable {
 		panic(ex.unsupported("token summary unusable: " + m.why))
@@ -175,12 +175,20 @@ func (ex *Exec) newTokSrc(k int, vocab []string) Value {
 	src := &tokSrc{model: m, k: k}
 	var bytes []Value
 	for i := 0; i < k; i++ {
-		sel := ex.freshVar("tok", 8)
-		ex.inputs = append(ex.inputs, inputRec{Kind: "tok", Terms: []*Term{sel}, Table: vocab})
-		ex.addPC(ts.Bin(OpULt, sel, ts.Const(uint64(len(vocab)), 8)))
-		for j, e := range m.entries {
-			if !e.ok {
-				ex.addPC(ts.Not(ts.Eq(sel, ts.Const(uint64(j), 8))))
+		var sel *Term
+		if fixed != nil && fixed[i] >= 0 {
+			if fixed[i] >= len(vocab) || !m.entries[fixed[i]].ok {
+				panic(pathEnd{kind: "assume", msg: "fixed slot lexeme is not a single token on this tree"})
+			}
+			sel = ts.Const(uint64(fixed[i]), 8)
+		} else {
+			sel = ex.freshVar("tok", 8)
+			ex.inputs = append(ex.inputs, inputRec{Kind: "tok", Terms: []*Term{sel}, Table: vocab})
+			ex.addPC(ts.Bin(OpULt, sel, ts.Const(uint64(len(vocab)), 8)))
+			for j, e := range m.entries {
+				if !e.ok {
+					ex.addPC(ts.Not(ts.Eq(sel, ts.Const(uint64(j), 8))))
+				}
 			}
 		}
 		src.sels = append(src.sels, sel)
@@ -329,7 +337,24 @@ func registerTok(e *Engine, reg func(string, intrinsic)) {
 			}
 			vocab[i] = s
 		}
-		return ex.newTokSrc(k, vocab)
+		return ex.newTokSrc(k, vocab, nil)
+	})
+	reg(verifPkg+".TokenSeq", func(ex *Exec, fn *ssa.Function, a []Value) Value {
+		vs, _ := a[0].(Slice)
+		vocab := make([]string, len(vs))
+		for i, v := range vs {
+			s, ok := ex.forceStr(v).(string)
+			if !ok {
+				panic(ex.unsupported("TokenSeq with symbolic vocabulary"))
+			}
+			vocab[i] = s
+		}
+		fs, _ := a[1].(Slice)
+		fixed := make([]int, len(fs))
+		for i, f := range fs {
+			fixed[i] = ex.concreteInt(f, types.Typ[types.Int])
+		}
+		return ex.newTokSrc(len(fixed), vocab, fixed)
 	})
 	reg(repoModule+"/parser.Scan", func(ex *Exec, fn *ssa.Function, a []Value) Value {
 		if ex.tokSrc != nil && !ex.noSummary {
